@@ -155,7 +155,7 @@ def fix_perms(rng, u):
 
 
 USE_FORMS = ["plain", "plain", "only", "only", "only_rename", "only_rename", "prefix", "twice", "rename",
-             "only_empty", "only_dup"]
+             "only_empty", "only_dup", "rename_perm"]
 
 
 def gen_use(rng, units, target, form, tag, counter, knobs):
@@ -200,6 +200,27 @@ def gen_use(rng, units, target, form, tag, counter, knobs):
         return [mk(items, [])]
     if form == "rename":
         return [mk(None, rename_items(pick_names()))]
+    if form == "rename_perm":
+        # a rename list without ONLY whose local names are names of the used module that the same list
+        # renames away: a chain (a => b, fresh => a), a swap or a rotation, clauses in any order.  The
+        # renames of a statement are simultaneous (Fortran 2018 14.2.2)
+        # (among names of one kind: a type named like a procedure of the same module would be another
+        # matter, the clash of two classes of identifiers)
+        exk = guess_exports(units, target)
+        bykind = {}
+        for n in ex:
+            bykind.setdefault(CLS[exk[n]], []).append(n)
+        pools = [v for v in bykind.values() if len(v) >= 2]
+        if not pools:
+            return [mk(None, rename_items(pick_names()))]
+        pool = rng.choice(pools)
+        ns = rng.sample(pool, min(len(pool), rng.randint(2, 3)))
+        if rng.random() < 0.5:
+            items = [[ns[i + 1], spell(rng, ns[i])] for i in range(len(ns) - 1)] + [[local(ns[-1]), spell(rng, ns[-1])]]
+        else:
+            items = [[ns[(i + 1) % len(ns)], spell(rng, ns[i])] for i in range(len(ns))]
+        rng.shuffle(items)
+        return [mk(None, items)]
     if form == "only_empty":
         return [mk([], [])]
     if form == "only_dup":
@@ -229,6 +250,7 @@ def gen_graph(rng, knobs=None):
     forms = list(knobs.get("forms") or USE_FORMS)
     if not knobs.get("regions"):
         forms = [f for f in forms if f not in ("rename", "only_empty", "only_dup")] or ["plain"]
+    # (rename_perm stays in: about one statement in eleven)
     units = []
     for i in range(n):
         tag = "abcdefgh"[i]
@@ -336,7 +358,7 @@ def gen_nested(rng, units, u, forms, knobs):
     mods = [x for x in units if x["unit"] == "module"]
     shallow = {x["target"].lower() for x in u["uses"]}
     counter = [100]
-    nforms = [f for f in forms if f in ("plain", "only", "only_rename", "prefix", "twice")] or ["plain"]
+    nforms = [f for f in forms if f in ("plain", "only", "only_rename", "prefix", "twice", "rename_perm")] or ["plain"]
     chains = list(CHAINS)
     k = 0
 
